@@ -580,7 +580,12 @@ static void do_control(xmp_context c, struct context_data *ctx, int *stopped)
 		break;
 	case 8:
 		kind = 4;
-		arg = vrng_chance(15) ? -5 : (vrng_chance(15) ? INT_MAX : (int)vrng_below((uint32)(fi.total_time > 0 ? fi.total_time + fi.total_time / 4 + 10 : 1000)));
+		{
+			long long span = fi.total_time > 0 ? (long long)fi.total_time + fi.total_time / 4 + 10 : 1000;
+			if (span > INT_MAX)
+				span = INT_MAX;
+			arg = vrng_chance(15) ? -5 : (vrng_chance(15) ? INT_MAX : (int)vrng_below((uint32)span));
+		}
 		ret = xmp_seek_time(c, arg);
 		break;
 	case 9:
